@@ -135,6 +135,18 @@ let run_case (c : st) : string =
                 if r = 2 then note (Printf.sprintf "periodic image %d: model [%s] impl [%s]" j (show9 (arr_of_tf m)) (show9 i))
                 else upd r) im
         | _ -> ());
+       (* the area of the shape (C02) *)
+       (if c.kind = 'P' && c.segs <> [] then begin
+          let n = float_of_int (List.length c.segs) in
+          let m = c2f (poly_area numF (f2c (sin (2. *. Float.pi /. n))) c.segs) in
+          if same m c.area then () else if Float.abs (m -. c.area) <= 1e-12 *. (1. +. Float.abs c.area) then upd 1
+          else note (Printf.sprintf "polygon area: model %h impl %h" m c.area)
+        end else if c.kind = 'M' && c.discs <> [] then begin
+          let m = c2f (mol_area numF (fun x -> f2c (acos (c2f x))) (f2c Float.pi) c.discs) in
+          if same m c.area || (Float.is_nan m && Float.is_nan c.area) then ()
+          else if Float.abs (m -. c.area) <= 1e-12 *. (1. +. Float.abs c.area) then upd 1
+          else note (Printf.sprintf "molecule area: model %h impl %h" m c.area)
+        end);
        (match c.carea with
         | Some a ->
             let m = c2f (cell_area numF cell) in
